@@ -108,3 +108,156 @@ def fields(obj, names=("Lambda", "nu", "ln_beta", "Sigma", "ln_det_Sigma", "ln_d
         if v is not None:
             out[n] = v
     return out
+
+
+# ---------------------------------------------------------------------------------- invariants (C04)
+def invariant_claims(ops, F, tag, want=("SL", "ldS", "ldL", "mu", "lnZ")):
+    """Mutual-consistency claims for a dict F of public fields of one object (arrays with leading R).
+    Every right-hand side is computed from the returned Lambda / Sigma by cofactors -- never by
+    'minus the other field'."""
+    from .. import spec
+    cl = []
+    Lam = F.get("Lambda")
+    Sig = F.get("Sigma")
+    R = Lam.shape[0]
+    D = Lam.shape[1]
+    if Sig is not None and "SL" in want:
+        prod = np.einsum("rij,rjk->rik", Sig, Lam)
+        I = ops.zeros((R, D, D))
+        for r in range(R):
+            for i in range(D):
+                I[r, i, i] = ops.one()
+        cl.append((f"{tag}: Sigma Lambda = I", prod, I))
+    if F.get("ln_det_Sigma") is not None and "ldS" in want:
+        exp = ops.zeros((R,))
+        for r in range(R):
+            src = Sig[r] if Sig is not None else None
+            if src is not None:
+                exp[r] = ops.lnabs(spec.det(ops, src))
+            else:
+                exp[r] = -ops.lnabs(spec.det(ops, Lam[r]))
+        cl.append((f"{tag}: ln_det_Sigma = ln det Sigma", F["ln_det_Sigma"], exp))
+        exp2 = ops.zeros((R,))
+        for r in range(R):
+            exp2[r] = -ops.lnabs(spec.det(ops, Lam[r]))
+        cl.append((f"{tag}: ln_det_Sigma = -ln det Lambda", F["ln_det_Sigma"], exp2))
+    if F.get("ln_det_Lambda") is not None and "ldL" in want:
+        exp = ops.zeros((R,))
+        for r in range(R):
+            exp[r] = ops.lnabs(spec.det(ops, Lam[r]))
+        cl.append((f"{tag}: ln_det_Lambda = ln det Lambda", F["ln_det_Lambda"], exp))
+    if F.get("mu") is not None and F.get("nu") is not None and "mu" in want:
+        # mu = Lambda^-1 nu  <=>  Lambda mu = nu   (avoids a second inverse)
+        cl.append((f"{tag}: Lambda mu = nu", np.einsum("rij,rj->ri", Lam, F["mu"]), F["nu"]))
+    if F.get("lnZ") is not None and F.get("nu") is not None and "lnZ" in want:
+        exp = ops.zeros((R,))
+        for r in range(R):
+            Li, d = spec.inv(ops, Lam[r])
+            exp[r] = ops.c(Fraction(1, 2)) * (spec.quad(F["nu"][r], Li, F["nu"][r]) + ops.c(D) * ops.ln2pi() - ops.lnabs(d))
+        cl.append((f"{tag}: lnZ = 1/2(nu' Lambda^-1 nu + D ln 2pi - ln det Lambda)", F["lnZ"], exp))
+    return cl
+
+
+def density_is_normalised_claims(ops, F, tag):
+    """'integrates to one' from the returned Lambda, nu, ln_beta only (Gaussian mass axiom)"""
+    from .. import spec
+    R = F["Lambda"].shape[0]
+    lhs = ops.zeros((R,)); rhs = ops.zeros((R,))
+    for r in range(R):
+        lhs[r] = spec.ln_mass(ops, F["Lambda"][r], F["nu"][r], F["ln_beta"][r])
+    return [(f"{tag}: ln integral of the evaluated function = 0", lhs, rhs)]
+
+
+# ---------------------------------------------------------------------------------- conditionals
+COND_KINDS = ["full", "diag", "identity", "identitydiag", "nncontrol"]
+
+
+def declare_cond(b, kind, pre, R, Dy, Dx, via="Sigma"):
+    if kind == "full":
+        b.free(pre + "M", (R, Dy, Dx)); b.free(pre + "b", (R, Dy)); b.spd(pre + "S", R, Dy)
+    elif kind == "diag":
+        b.free(pre + "M", (R, Dy, Dx)); b.free(pre + "b", (R, Dy)); b.diag(pre + "S", R, Dy)
+    elif kind == "identity":
+        assert Dx == Dy
+        b.spd(pre + "S", R, Dy)
+    elif kind == "identitydiag":
+        assert Dx == Dy
+        b.diag(pre + "S", R, Dy)
+    elif kind == "nncontrol":
+        assert R == 1
+        Du = 1
+        b.spd(pre + "S", 1, Dy)
+        b.free(pre + "u", (1, Du)); b.free(pre + "P", (Du, Dy * (Dx + 1))); b.free(pre + "q", (Dy * (Dx + 1),))
+    else:
+        raise ValueError(kind)
+
+
+class CondWrap:
+    """uniform call interface over the conditional classes (NN control needs u= everywhere)"""
+
+    def __init__(self, obj, kw):
+        self.obj, self.kw = obj, kw
+
+    def __getattr__(self, name):
+        f = getattr(self.obj, name)
+        if callable(f) and name not in ("slice",):
+            return lambda *a, **k: f(*a, **{**self.kw, **k})
+        return f
+
+    def __call__(self, x):
+        return self.obj(x, **self.kw)
+
+
+def make_cond(kind, pre, A, Dy, Dx, via="Sigma"):
+    factor, measure, pdf, conditional = gt()
+    if kind == "full":
+        return CondWrap(conditional.ConditionalGaussianPDF(M=A[pre + "M"], b=A[pre + "b"], Sigma=A[pre + "S"]), {})
+    if kind == "diag":
+        return CondWrap(conditional.ConditionalGaussianDiagPDF(M=A[pre + "M"], b=A[pre + "b"], Sigma=A[pre + "S"]), {})
+    if kind == "identity":
+        return CondWrap(conditional.ConditionalIdentityGaussianPDF(Sigma=A[pre + "S"]), {})
+    if kind == "identitydiag":
+        return CondWrap(conditional.ConditionalIdentityDiagGaussianPDF(Sigma=A[pre + "S"]), {})
+    if kind == "nncontrol":
+        P, q = A[pre + "P"], A[pre + "q"]
+        obj = conditional.NNControlGaussianConditional(Sigma=A[pre + "S"], num_cond_dim=Dx, num_control_dim=P.shape[0],
+                                                       control_func=lambda u: u @ P + q[None])
+        return CondWrap(obj, {"u": A[pre + "u"]})
+    raise ValueError(kind)
+
+
+def cond_spec_params(ops, kind, pre, I, R, Dy, Dx):
+    """(M[R,Dy,Dx], b[R,Dy], Sigma[R,Dy,Dy]) that the conditional denotes, by definition"""
+    from .. import spec
+    S = I[pre + "S"]
+    if kind in ("full", "diag"):
+        return I[pre + "M"], I[pre + "b"], S
+    if kind in ("identity", "identitydiag"):
+        M = ops.zeros((R, Dy, Dx))
+        for r in range(R):
+            for i in range(Dy):
+                M[r, i, i] = ops.one()
+        return M, ops.zeros((R, Dy)), S
+    if kind == "nncontrol":
+        u, P, q = I[pre + "u"], I[pre + "P"], I[pre + "q"]
+        outv = ops.zeros((Dy * (Dx + 1),))
+        for k in range(Dy * (Dx + 1)):
+            t = q[k]
+            for a in range(P.shape[0]):
+                t = t + u[0, a] * P[a, k]
+            outv[k] = t
+        M = ops.zeros((1, Dy, Dx)); bb = ops.zeros((1, Dy))
+        for i in range(Dy):
+            for j in range(Dx):
+                M[0, i, j] = outv[i * Dx + j]
+            bb[0, i] = outv[Dy * Dx + i]
+        return M, bb, S
+    raise ValueError(kind)
+
+
+def spec_cond_logpdf(ops, cp, r, x, y):
+    """ln N(y; M_r x + b_r, Sigma_r)"""
+    from .. import spec
+    M, bb, S = cp
+    mean = spec.mv(M[r], x) + bb[r]
+    return spec.logN(ops, y, mean, S[r])
